@@ -241,8 +241,20 @@ def fam_azimuth_without_peak(ctx, rng):
     ctx.nontrivial(["no-peak-azimuth", naz, odd, [int(h.n_curves) for h in az.hvsrs]])
 
 
+def maybe_repeat_azimuth_value(rng, az):
+    """Now and then two entries carry the same azimuth value (two instruments, or two recordings, processed at the same
+    azimuths and gathered in one result): every ENTRY is an azimuth of its own for the weights."""
+    if len(az.azimuths) >= 2 and rng.random() < 0.2:
+        i, j = (int(v) for v in rng.choice(len(az.azimuths), 2, replace=False))
+        az.azimuths = list(az.azimuths)
+        az.azimuths[j] = az.azimuths[i]
+        return True
+    return False
+
+
 def fam_history(ctx, rng):
     az = histories.build_azimuthal(rng)
+    maybe_repeat_azimuth_value(rng, az)
     nontriv = judge_state(ctx, az, [], rng)
     steps_seen = []
     for steps in histories.random_history(rng, az, n_steps=int(rng.integers(1, 6))):
@@ -259,6 +271,7 @@ def fam_history(ctx, rng):
 def fam_manual_unequal(ctx, rng):
     """Deliberately unequal acceptance counts through manual per-azimuth rejections."""
     az = histories.build_azimuthal(rng, equal_counts=True)
+    maybe_repeat_azimuth_value(rng, az)
     steps = []
     for _ in range(int(rng.integers(1, 4))):
         steps.append(histories.step_manual(rng, az, az.hvsrs))
